@@ -274,6 +274,13 @@ def evaluate(pre_entries, inv, umask=0o022, ignore=None, clone_ok=False):
             return Verdict("reject", "source-is-destination")
         if tb_phys is None:
             return Verdict("undefined", "destination-parent-unresolvable")
+        if len(srcs) == 1 and s_phys is not None:
+            # the one source and its mapped target are the same file under another name: a symbolic link or a hard link to it
+            s_ent = t.get(s_phys)
+            t_res, t_ent = t.resolve(tb_phys, follow_last=True)
+            if s_ent is not None and s_ent["k"] != "d" and t_res is not None and t_ent is not None and "o" in s_ent and \
+                    (t_res == s_phys or t_ent.get("o") == s_ent.get("o")):
+                return Verdict("reject", "source-is-destination")
         if s_phys is not None and (tb_phys + "/").startswith(s_phys + "/") and t.kind(s_n, True) == "d":
             return Verdict("undefined", "destination-inside-source")
         sel = []
